@@ -242,3 +242,24 @@ Theorem http10_request_persists_iff_keep_alive : forall s, p_version s = 0 ->
   req_persisted s = hdr_has (bz "connection") (bz "keep-alive") (p_headers s).
 Proof. exact req_persisted_http10. Qed.
 Print Assumptions http10_request_persists_iff_keep_alive.
+
+(* ------------------------------------------------------------------ *)
+(* leniency of the chunk size field (int(x, 16) after bytes.strip())    *)
+(* ------------------------------------------------------------------ *)
+(* White space (SP, HTAB, ... bytes.strip()'s set) on either side of the size, and a 0x / 0X
+   prefix optionally followed by one underscore, do not change the size and extensions that
+   parseChunk reads from a chunk size line. *)
+Theorem chunk_size_field_padding_and_0x_prefix : forall pre post (pfx : option (Z * bool)) ds es,
+  forallb is_ws_b pre = true -> forallb is_ws_b post = true ->
+  match pfx with Some (x, _) => x = 120 \/ x = 88 | None => True end ->
+  ds <> [] -> digits_ok 16 ds = true -> len ds <= 4300 -> forallb ext_ok es = true ->
+  parse_chunk_size (pre ++ (match pfx with Some (x, us) => hex_prefix x us | None => [] end ++ num ds)
+                        ++ post ++ render_exts es)
+  = Some (dval 16 ds 0, exts_map es).
+Proof. exact parse_chunk_size_lenient. Qed.
+Print Assumptions chunk_size_field_padding_and_0x_prefix.
+
+Example c29_lenient_size_instance :
+  parse_chunk_size (bz " 0X_1F " ++ bz ";a=1") = Some (31, [(bz "a", Some (bz "1"))]) /\
+  [32] ++ (hex_prefix 88 true ++ num [1; 21]) ++ [32] ++ render_exts [(bz "a", Some (bz "1"))] = bz " 0X_1F ;a=1".
+Proof. vm_compute. split; reflexivity. Qed.
